@@ -281,9 +281,26 @@ def ob_writer_siblings(ctx, res):
             iff = full[0][2].parent
             while iff is not None and iff.k != "if":
                 iff = iff.parent
-            if iff is None or up(strip(iff["cond"])).replace(" ", "") != "!val.rest.is_empty()":
+            # the 4-column form sits in the branch taken when rest is NOT empty (`if !rest.is_empty() {4} else {3}` or `if rest.is_empty() {3} else {4}`)
+            def _inside(n, anc):
+                x = n
+                while x is not None and isinstance(x, Node):
+                    if x is anc:
+                        return True
+                    x = x.parent
+                return False
+            okr = False
+            if iff is not None:
+                ct = up(strip(iff["cond"])).replace(" ", "")
+                in_then = _inside(full[0][2], iff["then"])
+                short_other = iff.get("else") is not None and _inside(short[0][2], iff["else"] if in_then else iff["then"])
+                if re.fullmatch(r"!\w+(\.\w+)*\.rest\.is_empty\(\)", ct) and in_then and short_other:
+                    okr = True
+                if re.fullmatch(r"\w+(\.\w+)*\.rest\.is_empty\(\)", ct) and not in_then and short_other:
+                    okr = True
+            if not okr:
                 res.fail("writers/bed/%s/rest-test" % nm, full[0][2], "the 4-column form must be used iff rest is not empty")
-        if [(m[0], m[1]) for m in a] != [(m[0], m[1]) for m in b]:
+        if sorted((m[0], tuple(m[1])) for m in a) != sorted((m[0], tuple(m[1])) for m in b):
             res.fail("writers/bed/differ", b[0][2], "threaded BED writer differs from the serial one")
         elif not [v for v in res.violations if "writers/bed" in v["role"]]:
             res.ok(a[0][2], "BED writers (serial, threaded, from-bed): identical formats and argument order, 3-column form iff rest is empty")
